@@ -7,6 +7,12 @@ struct Echo;
 impl Scenario for Echo {
     fn reset(&mut self) {}
     fn step(&mut self, line: &str, _ctx: &mut Ctx) -> String {
+        if line == "spin" {
+            // never returns: exercises the hang watchdog
+            loop {
+                std::hint::spin_loop();
+            }
+        }
         line.to_string()
     }
 }
